@@ -31,7 +31,7 @@ type Case struct {
 	Ops    []Op `json:"ops"`
 }
 
-var names = []string{"alpha", "beta", "gamma", "delta"}
+var names = []string{"alpha", "Beta.SSH", "gamma", "delta"} // one name with upper-case letters: names are opaque keys
 
 // fixed type per name: two tcp (fixed ports), one stcp, one http
 // The public resource (port / domain) depends on the registering slot, not on the name: two
@@ -50,7 +50,7 @@ func pxyMsg(s *fx.Server, ni int, slot int) *msg.NewProxy {
 func gen(t *rapid.T) Case {
 	n := rapid.IntRange(3, 18).Draw(t, "nops")
 	c := Case{TCPMux: rapid.Bool().Draw(t, "tcpmux")}
-	kinds := []string{"login", "login", "relogin", "relogin", "reloginN", "register", "register", "register", "register", "close", "close", "disconnect", "regdrop", "user", "user", "user", "race", "race", "bulk", "bulk"}
+	kinds := []string{"login", "login", "relogin", "relogin", "reloginN", "register", "register", "register", "register", "close", "close", "disconnect", "regdrop", "user", "user", "user", "race", "race", "bulk", "bulk", "regfail", "regfail"}
 	c.Ops = append(c.Ops, Op{Kind: "login", Slot: 0}, Op{Kind: "login", Slot: 1})
 	for i := 0; i < n; i++ {
 		op := Op{Kind: rapid.SampledFrom(kinds).Draw(t, "kind"), Slot: rapid.IntRange(0, 2).Draw(t, "slot"), Name: rapid.IntRange(0, 3).Draw(t, "name")}
@@ -459,6 +459,22 @@ func run(c Case) (err error) {
 				model[op.Name] = owner{op.Slot, ss.gen}
 			} else if e := userCheck(i, op.Name); e != nil {
 				return fmt.Errorf("after refused duplicate: %v", e)
+			}
+		case "regfail":
+			// a registration that fails while the proxy is being started (the port is outside allowPorts): it must be
+			// refused and must leave nothing behind - in particular not the name
+			if ss == nil {
+				continue
+			}
+			resp, e := ss.sc.NewProxy(&msg.NewProxy{ProxyName: names[op.Name], ProxyType: "tcp", RemotePort: 9}, 5*time.Second)
+			if e != nil {
+				return fmt.Errorf("step %d: no response to a NewProxy %s for a port that is not allowed: %v", i, names[op.Name], e)
+			}
+			if resp.Error == "" {
+				return fmt.Errorf("step %d: NewProxy %s for port 9 (outside allowPorts) was accepted", i, names[op.Name])
+			}
+			if e := userCheck(i, op.Name); e != nil {
+				return fmt.Errorf("after a registration that failed at start: %v", e)
 			}
 		case "close":
 			if ss == nil {
